@@ -7,9 +7,10 @@ import QtVerif.Proofs.PortIO
 namespace QtVerif.PortIO
 
 /-- Invariant of the fair stage. -/
-structure StageInv (c : Cfg) (t : TState) : Prop where
-  calls  : t.entered = t.passed.map (·.1) ++ t.stage
-  queued : t.port.submitted.map (·.val) = (t.passed.filter (·.2)).map (·.1.val)
+structure StageInv (xf : Nat → Int → Int) (c : Cfg) (t : TState) : Prop where
+  calls  : t.entered = t.passed.map (·.call) ++ t.stage
+  queued : t.port.submitted.map (·.val) = (t.passed.filter (·.ok)).map (·.queuedVal xf)
+  holder : t.acq.isSome = true → t.stage ≠ []
   reach  : Reachable c t.port
 
 theorem submit_submitted {c : Cfg} {s s' : State} {v : Int} (hs : step c s (.submit v) = some s') :
@@ -60,42 +61,52 @@ theorem nonsubmit_submitted {c : Cfg} {s s' : State} {a : Action} (ha : ∀ v, a
     · simp at hs
     · injection hs with hs; subst hs; rfl
 
-theorem stageInv_step {c : Cfg} {t t' : TState} {a : TAction} (h : StageInv c t)
-    (hs : tstep true c t a = some t') : StageInv c t' := by
-  obtain ⟨h1, h2, h3⟩ := h
+theorem stageInv_step {xf : Nat → Int → Int} {c : Cfg} {t t' : TState} {a : TAction} (h : StageInv xf c t)
+    (hs : tstep true xf c t a = some t') : StageInv xf c t' := by
+  obtain ⟨h1, h2, h4, h3⟩ := h
   cases a <;> simp only [tstep] at hs
   case enter v =>
     injection hs with hs; subst hs
-    exact ⟨by simp [h1], h2, h3⟩
+    exact ⟨by simp [h1], h2, by simp, h3⟩
+  case acquire =>
+    split at hs
+    · next k rest hst hacq =>
+      injection hs with hs; subst hs
+      exact ⟨h1, h2, by simp [hst], h3⟩
+    · simp at hs
   case pass ok =>
     split at hs
-    · simp at hs
-    · next k rest hst =>
+    · next k rest tk hst hacq =>
       split at hs
       · simp only [Option.map_eq_some_iff] at hs
         obtain ⟨p, hp, rfl⟩ := hs
-        refine ⟨by simp [h1, hst], ?_, Reachable.step _ h3 hp⟩
-        simp [submit_submitted hp, h2, List.filter_append]
+        refine ⟨by simp [h1, hst], ?_, by simp, Reachable.step _ h3 hp⟩
+        simp [submit_submitted hp, h2, List.filter_append, Passed.queuedVal]
       · injection hs with hs; subst hs
-        exact ⟨by simp [h1, hst], by simpa [List.filter_append] using h2, h3⟩
+        exact ⟨by simp [h1, hst], by simpa [List.filter_append] using h2, by simp, h3⟩
+    · simp at hs
   case jump i => simp at hs
+  case setTr k =>
+    injection hs with hs; subst hs
+    exact ⟨h1, h2, h4, h3⟩
   case port a =>
     split at hs
     · simp at hs
     · next a' hne =>
       simp only [Option.map_eq_some_iff] at hs
       obtain ⟨p, hp, rfl⟩ := hs
-      refine ⟨h1, ?_, Reachable.step _ h3 hp⟩
+      refine ⟨h1, ?_, h4, Reachable.step _ h3 hp⟩
       have := nonsubmit_submitted (fun v hv => hne v hv) hp
       simp only [this]; exact h2
 
-theorem treachable_inv {c : Cfg} {t : TState} (h : TReachable true c t) : StageInv c t := by
+theorem treachable_inv {xf : Nat → Int → Int} {c : Cfg} {t : TState} (h : TReachable true xf c t) :
+    StageInv xf c t := by
   induction h with
-  | init => exact ⟨rfl, rfl, Reachable.init⟩
+  | init => exact ⟨rfl, rfl, by simp, Reachable.init⟩
   | step a _ hs ih => exact stageInv_step ih hs
 
-theorem texec_reachable {fair : Bool} {c : Cfg} {t t' : TState} (as : List TAction) (h : TReachable fair c t)
-    (he : texec fair c t as = some t') : TReachable fair c t' := by
+theorem texec_reachable {fair : Bool} {xf : Nat → Int → Int} {c : Cfg} {t t' : TState} (as : List TAction)
+    (h : TReachable fair xf c t) (he : texec fair xf c t as = some t') : TReachable fair xf c t' := by
   induction as generalizing t with
   | nil => simp [texec] at he; subst he; exact h
   | cons a as ih =>
